@@ -65,6 +65,16 @@ var helperFuncs = template.FuncMap{
 		}
 		return ""
 	},
+	// oneline keeps a text on one line: a line break would end a "#" comment
+	// and the rest of the text would be taken as VCL code.
+	"oneline": func(text string) string {
+		return string(bytes.Map(func(r rune) rune {
+			if r == '\n' || r == '\r' {
+				return ' '
+			}
+			return r
+		}, []byte(text)))
+	},
 }
 
 // Template declarations
@@ -84,11 +94,12 @@ table {{ .Name }} STRING {
 
 var aclTemplate = template.Must(
 	template.New("acl").
+		Funcs(helperFuncs).
 		Parse(
 			`
 acl {{ .Name }} {
 	{{- range .Entries }}
-	{{ if .Negated }}!{{ end }}"{{ .Ip }}"{{ if .Subnet }}/{{ .Subnet }}{{ end }};{{ if .Comment }}  # {{ .Comment }}{{ end }}
+	{{ if .Negated }}!{{ end }}"{{ .Ip }}"{{ if .Subnet }}/{{ .Subnet }}{{ end }};{{ if .Comment }}  # {{ .Comment | oneline }}{{ end }}
 	{{- end }}
 }
 `,
